@@ -464,3 +464,9 @@ and exhibited clearly, with a label attached.\
         assert_eq!(lines[0].start, prev(t, lines[5].end, 6));
     }
 }
+
+#[cfg(kani)]
+mod verif_kani {
+    use super::*;
+    include!(concat!(env!("RG_VERIF_KANI_DIR"), "/searcher/lines.rs"));
+}
